@@ -54,6 +54,34 @@ Theorem C15_authorize_exactly :
 Proof. exact authorize_allow_iff. Qed.
 Print Assumptions C15_authorize_exactly.
 
+(* Work type names.  The verification decision and the allocation use ONE lookup of the submitted
+   name (exact byte equality, like Go's map): a local submit that creates a unit was authorized
+   for exactly the class the unit is created with. *)
+Theorem C15_decision_for_created_type :
+  forall (jwt : bytes -> jwt_result) (key_ok : bool) (r : registry) st c tok newid name signwork st' rp,
+  exec_submit_name jwt key_ok r st c tok newid name false signwork = (st', rp, [ECreated newid]) ->
+  authorize jwt key_ok (classify r name signwork) c tok = Allow /\
+  st' = st ++ [(newid, mkunit (match classify r name signwork with WRemote _ => WRemote false | k => k end) false)].
+Proof. exact decision_for_created_type. Qed.
+Print Assumptions C15_decision_for_created_type.
+
+(* so a unit of a verifying type is created only over the unix socket or with a valid token *)
+Theorem C15_verifying_unit_needs_token :
+  forall (jwt : bytes -> jwt_result) (key_ok : bool) (r : registry) st c tok newid name signwork st' rp,
+  exec_submit_name jwt key_ok r st c tok newid name false signwork = (st', rp, [ECreated newid]) ->
+  reg_lookup name r = Some true -> name <> s_remote ->
+  c = Unix \/ (tok <> [] /\ key_ok = true /\ jwt tok = JValid).
+Proof. exact verifying_unit_needs_token. Qed.
+Print Assumptions C15_verifying_unit_needs_token.
+
+(* and any other spelling (not registered) creates nothing on this node *)
+Theorem C15_unknown_name_creates_nothing :
+  forall (jwt : bytes -> jwt_result) (key_ok : bool) (r : registry) st c tok newid name signwork,
+  reg_lookup name r = None -> name <> s_remote ->
+  exists e, exec_submit_name jwt key_ok r st c tok newid name false signwork = (st, RError e, []).
+Proof. exact unknown_name_creates_nothing. Qed.
+Print Assumptions C15_unknown_name_creates_nothing.
+
 (* non-vacuity: allowed and refused instances of the hypotheses on a concrete node *)
 Example C15_nonvacuous :
   exec ex_jwt true ex_state Tcp [1] (Cancel 1)
